@@ -541,6 +541,26 @@ outer:
 							fr.env[x] = pval{k: pBool, b: r, dep: dep}
 						}
 					}
+				case p.content && isFloatType(x.Type()) && (a.k == pStr || a.k == pFloat || a.k == pInt) && (b.k == pStr || b.k == pFloat || b.k == pInt) && (a.k == pStr || b.k == pStr) && (x.Op == token.ADD || x.Op == token.SUB || x.Op == token.MUL):
+					// arithmetic of the code itself on named elements (a hand-written multiply-accumulate)
+					nm := func(v pval) pval {
+						if v.k == pInt {
+							// a floating point constant with an integral value
+							if v.i == 0 {
+								return pval{k: pStr, s: "0"}
+							}
+							return pval{k: pStr, s: fmt.Sprintf("f%d", v.i)}
+						}
+						if v.k == pFloat {
+							if v.s == "0" {
+								return pval{k: pStr, s: "0"}
+							}
+							return pval{k: pStr, s: "f" + v.s}
+						}
+						return v
+					}
+					op := map[token.Token]string{token.ADD: "Add", token.SUB: "Sub", token.MUL: "Mul"}[x.Op]
+					fr.env[x] = combineElems(op, nm(a), nm(b))
 				case a.k == pStr && b.k == pStr && (x.Op == token.EQL || x.Op == token.NEQ):
 					fr.env[x] = pval{k: pBool, b: (a.s == b.s) == (x.Op == token.EQL)}
 				case a.k == pFloat && b.k == pFloat && (x.Op == token.EQL || x.Op == token.NEQ):
@@ -2255,6 +2275,34 @@ func (p *pinterp) call(fn *ssa.Function, fr *pframe, x *ssa.Call, depth int) {
 		}
 		return
 	}
+	if fnPkgPath(sc) == "math" && sc.Name() == "FMA" && len(cc.Args) == 3 && p.content {
+		// math.FMA(x, y, z) = x*y + z on named elements
+		a, b, z := p.val(fr, cc.Args[0]), p.val(fr, cc.Args[1]), p.val(fr, cc.Args[2])
+		nm := func(v pval) (pval, bool) {
+			switch v.k {
+			case pStr:
+				return v, true
+			case pFloat:
+				if v.s == "0" {
+					return pval{k: pStr, s: "0"}, true
+				}
+				return pval{k: pStr, s: "f" + v.s}, true
+			case pInt:
+				if v.i == 0 {
+					return pval{k: pStr, s: "0"}, true
+				}
+				return pval{k: pStr, s: fmt.Sprintf("f%d", v.i)}, true
+			}
+			return v, false
+		}
+		na, ok1 := nm(a)
+		nb, ok2 := nm(b)
+		nz, ok3 := nm(z)
+		if ok1 && ok2 && ok3 {
+			fr.env[x] = combineElems("Add", combineElems("Mul", na, nb), nz)
+			return
+		}
+	}
 	if fnPkgPath(sc) == "math" && sc.Signature.Recv() == nil && len(cc.Args) >= 1 && !strings.HasSuffix(sc.Name(), "frombits") {
 		// a function of package math on element tokens: the token remembers it (operands in order)
 		if v, ok := mathOnTokens(sc, func(i int) pval { return p.val(fr, cc.Args[i]) }, len(cc.Args)); ok {
@@ -3599,4 +3647,9 @@ func mathOnTokens(f *ssa.Function, arg func(i int) pval, n int) (pval, bool) {
 		}
 	}
 	return pval{k: pTok, i: a0.i, s: a0.s + "|" + name}, true
+}
+
+func isFloatType(t types.Type) bool {
+	b, ok := t.Underlying().(*types.Basic)
+	return ok && b.Info()&types.IsFloat != 0
 }
